@@ -21,17 +21,19 @@ def run(rep):
         "under rounding the order is preserved because hour_to_time is monotone (C11)"]
     obls = [(wiring.prayer_times_dt_wiring, False), (wiring.get_hours_wiring, None), (kernels.order_twilight_vs_riseset, 60),
             (kernels.fajr_isha_monotone, 60), (kernels.asr, 60), (policy.policy_clauses, ("None", ["none"], "named")),
-            (jd.jd_formula, (1600, 2399))]
+            (jd.jd_formula, (1600, 2399)), (policy.imsaak, None)]
     obls += [(rounding.rounding, (m, k, -50, 75, 1500)) for m in ("None", "SpecialRounding") for k in ("Fajr", "Shurooq", "Isha")]
     results = base.run_obligations(rep, obls)
     cands = [c for x in results for c in x["cands"]]
-    if cands or any(x["inconclusive"] for x in results):
+    if cands or any(x["inconclusive"] for x in results) or rep.tier == "thorough":
         from . import c11, c01
         c11.confirm_rounding(rep, results)
         c01.confirm_jd(rep, results) if any(x["cands"] for x in results if x["name"].startswith("JulianDay")) else None
         a = pp.confirm_kadj(rep, results, "C05")
+        if any((x["cands"] or x["inconclusive"]) for x in results if x.get("fn") == "imsaak") or rep.tier == "thorough":
+            pp.imsaak_grid(rep)
         kres = [x for x in results if x["name"].startswith(("order", "get_fajr", "get_asr"))]
-        if any((x["cands"] or x["inconclusive"]) for x in kres):
+        if any((x["cands"] or x["inconclusive"]) for x in kres) or rep.tier == "thorough":
             kp.confirm(rep, kres, WANT | {"asr"}, 60)
         if not rep.violations:
             from .. import replay
